@@ -1,3 +1,103 @@
 import Srctools.Wire
-/-! stub driver (echo) — replaced when the property's model exists. -/
-def main : IO Unit := Wire.main fun j => pure j
+import Srctools.Model.Tok
+import Srctools.Model.C01
+import Srctools.Gen.Tok
+import Srctools.Gen.Kvser
+/-! Driver for the C01 model (Keyvalues serialise / parse).
+trees:  leaf = [0,[cp…name],[cp…value]]   block = [1,[cp…name],[tree…]]
+requests:
+  {"op":"ser","root":b,"trees":[tree…],"indent":[cp…],"braces":b,"start":[cp…]}
+      → {"r":[cp…]}        root=false: trees has ONE element, `kv.serialise(...)`;
+                           root=true: `Keyvalues.root(*trees).serialise(...)`
+  {"op":"parse","s":[cp…],"flags":[[[cp…],b]…],"defaults":[[[cp…],b]…],
+   "nk":b,"nv":b,"esc":b,"sl":b,"sb":b,"fold":[[cp,[cp…]]…]}
+      → {"k":"root","trees":[tree…],"lines":[n…]} | {"k":"single","trees":[tree]}
+        | {"k":"err","err":[id,a,b],"line":n|null}
+  {"op":"toks","s":[cp…],"esc":b,"fold":[…]}  → tokens of the text under parse()'s tokenizer options
+      {"toks":[[kind,[cp…],line]…],"err":null|[id,arg,line]}
+-/
+open Lean C01
+
+def foldOf (j : Json) : Except String (Char → List Char) := do
+  let a ← j.getArr?
+  let pairs ← a.toList.mapM fun p => do
+    let q ← p.getArr?
+    let k ← (q[0]!).getNat?
+    let v ← Wire.strOfCodes (q[1]!)
+    pure (Char.ofNat k, v)
+  pure fun c => match pairs.find? (·.1 == c) with
+    | some p => p.2
+    | none => [c]
+
+partial def treeOf (j : Json) : Except String KV := do
+  let a ← j.getArr?
+  if a.size != 3 then throw "tree: need 3 elements"
+  let tag ← (a[0]!).getNat?
+  let name ← Wire.strOfCodes (a[1]!)
+  if tag == 0 then
+    pure (.leaf name (← Wire.strOfCodes (a[2]!)))
+  else
+    let cs ← (a[2]!).getArr?
+    pure (.block name (← cs.toList.mapM treeOf))
+
+mutual
+def treeJson : KV → Json
+  | .leaf n v => Json.arr #[Json.num (JsonNumber.fromNat 0), Wire.codesOfStr n, Wire.codesOfStr v]
+  | .block n cs => Json.arr #[Json.num (JsonNumber.fromNat 1), Wire.codesOfStr n, Json.arr (treesJson cs).toArray]
+def treesJson : List KV → List Json
+  | [] => []
+  | t :: ts => treeJson t :: treesJson ts
+end
+
+def envOf (j : Json) : Except String (List (List Char × Bool)) := do
+  let a ← j.getArr?
+  a.toList.mapM fun p => do
+    let q ← p.getArr?
+    pure (← Wire.strOfCodes (q[0]!), ← (q[1]!).getBool?)
+
+def handle (j : Json) : Except String Json := do
+  let op ← j.getObjValAs? String "op"
+  match op with
+  | "ser" =>
+    let root ← j.getObjValAs? Bool "root"
+    let ts ← (← (← j.getObjVal? "trees").getArr?).toList.mapM treeOf
+    let o : SerOpts := { indent := ← Wire.strOfCodes (← j.getObjVal? "indent"),
+                         indentBraces := ← j.getObjValAs? Bool "braces",
+                         startIndent := ← Wire.strOfCodes (← j.getObjVal? "start") }
+    if root then
+      pure (Json.mkObj [("r", Wire.codesOfStr (serialiseRoot Gen.Tok.tables Gen.Kvser.cfg o ts))])
+    else match ts with
+      | [t] => pure (Json.mkObj [("r", Wire.codesOfStr (serialise Gen.Tok.tables Gen.Kvser.cfg o t))])
+      | _ => throw "ser: root=false needs exactly one tree"
+  | "parse" =>
+    let s ← Wire.strOfCodes (← j.getObjVal? "s")
+    let f ← foldOf (← j.getObjVal? "fold")
+    let po : ParseOpts := {
+      flags := ← envOf (← j.getObjVal? "flags"), defaults := ← envOf (← j.getObjVal? "defaults"),
+      newlineKeys := ← j.getObjValAs? Bool "nk", newlineValues := ← j.getObjValAs? Bool "nv",
+      allowEscapes := ← j.getObjValAs? Bool "esc", singleLine := ← j.getObjValAs? Bool "sl",
+      singleBlock := ← j.getObjValAs? Bool "sb" }
+    let r := Tok.run Gen.Tok.tables (tokOpts po) f s
+    match parseRun po f r with
+    | .root cs =>
+      pure (Json.mkObj [("k", Json.str "root"), ("trees", Json.arr (treesJson cs).toArray),
+                        ("lines", Wire.ofNatList (nameLines po f initState r.toks))])
+    | .single kv => pure (Json.mkObj [("k", Json.str "single"), ("trees", Json.arr #[treeJson kv])])
+    | .err e l =>
+      pure (Json.mkObj [("k", Json.str "err"), ("err", Wire.ofNatList [e.code.1, e.code.2.1, e.code.2.2]),
+                        ("line", match l with | some n => Json.num (JsonNumber.fromNat n) | none => Json.null)])
+  | "toks" =>
+    let s ← Wire.strOfCodes (← j.getObjVal? "s")
+    let f ← foldOf (← j.getObjVal? "fold")
+    let esc ← j.getObjValAs? Bool "esc"
+    let r := Tok.run Gen.Tok.tables (tokOpts { allowEscapes := esc }) f s
+    pure (Json.mkObj [
+      ("toks", Json.arr (r.toks.map fun t =>
+        Json.arr #[Json.num (JsonNumber.fromNat t.kind), Wire.codesOfStr t.value,
+                   Json.num (JsonNumber.fromNat t.line)]).toArray),
+      ("err", match r.err with
+        | none => Json.null
+        | some (e, l) => Wire.ofNatList [e.code.1, e.code.2, l])])
+  | _ => throw s!"unknown op {op}"
+
+def main : IO Unit := Wire.main handle
